@@ -58,6 +58,35 @@ def sanitizer_run(rng, nscripts):
     return bad, len(scripts)
 
 
+DEFERRED_CORPUS = [
+    # a buffer that spills by an odd amount makes the next block's capacity odd: 1-byte + 4096-byte components, twice
+    ('odd_block_capacity', ['maxthreads 16', 'threads 1', 'reg 6', 'reg 7', 'reg 0', 'update', 'create 0 0', 'create 0 0', 'create 0 0', 'create 0 0',
+                            'lock', 'assign 0 #0 6 -', 'assign 0 #1 7 5', 'unlock', 'lock', 'assign 0 #2 6 -', 'assign 0 #3 7 6', 'unlock']),
+    ('mixed_alignments', ['maxthreads 16', 'threads 1', 'reg 6', 'reg 4', 'reg 5', 'reg 7', 'reg 0', 'update'] + ['create 0 0'] * 6 +
+     ['lock', 'assign 0 #0 6 -', 'assign 0 #0 4 3', 'assign 0 #1 6 -', 'assign 0 #1 5 -', 'assign 0 #2 7 9', 'assign 0 #3 6 -', 'assign 0 #3 4 1', 'unlock',
+      'lock', 'assign 0 #4 6 -', 'assign 0 #4 7 2', 'assign 0 #5 6 -', 'assign 0 #5 5 -', 'unlock']),
+]
+
+
+def deferred_storage_run(rng, n):
+    prof = mgr.profile('C05')
+    prof['pals'] = [0, 4, 5, 6, 7, 8]
+    prof['dynflags'] = [0, 63]
+    prof['weights'] = dict(prof['weights'], lock=14, unlock=7, assign=30, create=18, remove=4, destroynow=6, build=0, recycle=0, createremove=0)
+    scripts = DEFERRED_CORPUS + [('d%d' % i, mgr.gen_script(rng.fork('c10d-%d' % i), 70, prof)) for i in range(n)]
+    rn = mgrcheck.Runner(PROP)
+    if rn.err:
+        return dict(what='build error: %s' % rn.err, opn=0, op='', script='', lines=[]), 0
+    impl, model, spec = rn.run(scripts, tag='deferred')
+    res = mgrcheck.tier_a(impl, spec, scripts, {'tmpaddr'})
+    res = [r for r in res if r['aspect'] == 'tmpaddr']
+    if res:
+        r = res[0]
+        r['lines'] = dict(scripts)[r['script']][:r['opn'] + 1]
+        return r, len(scripts)
+    return None, len(scripts)
+
+
 def run(tier, seed, replay=None):
     rng = vlib.Rng(seed)
     pr = proofcheck.prove(PROP)
@@ -98,14 +127,22 @@ def run(tier, seed, replay=None):
             ko, _ = emcmp.run_driver(drv, '==== w\n' + '\n'.join(wl) + '\n', wd, tag='witness')
             if any(b['crash'] or (b['tags'].get('A') or ['A missing'])[0] != 'A ok' for n_, bl in emcmp.parse(ko) for b in bl):
                 known.append('%s: %s' % (kf['key'], kf['what']))
+    # storage handed out by deferred assigns (the command-buffer allocator): aligned, inside one block, disjoint
+    em_fail, em_n = (None, 0)
+    if not replay:
+        em_fail, em_n = deferred_storage_run(rng, 60 if tier == 'quick' else 600)
     san_bad, san_n = ([], 0)
     if tier == 'thorough' and not replay:
         san_bad, san_n = sanitizer_run(rng, 150)
     cov.update({'evaluations': len(lines) + san_n, 'distinct_nontrivial': len(set(lines)), 'sanitizer_scripts': san_n,
                 'rule': 'random component sets (1-6 components, sizes 0..4096, power-of-two alignments 1..64, capacities 1..16); distinct input lines',
                 'tierA_failures': len(fa) + len(san_bad), 'tierB_divergences': len(div), 'samples': lines[:5]})
+    cov['deferred_storage_scripts'] = em_n
     violations = []
-    if fa:
+    if em_fail:
+        p = vlib.write_replay(PROP, 'failing_script.txt', '# %s\n# at op %d (%s) of script %s\n%s\n' % (em_fail['what'], em_fail['opn'], em_fail['op'], em_fail['script'], '\n'.join(em_fail['lines'])))
+        violations.append((p, ''))
+    elif fa:
         op, what = fa[0]
         p = vlib.write_replay(PROP, 'failing_input.txt', '# %s\n%s\n' % (what, op))
         violations.append((p, ''))
